@@ -4,4 +4,4 @@ Extraction Language OCaml.
 (* effective concurrency with the default re-read from copy.go *)
 Definition eff_K_gen : Z -> nat := eff_K defaultConcurrency.
 Extraction "xc01.ml" step step_opt init copy_result present_nodes inflight_src inflight_dst active eff_K_gen
-  eff_ref prologue N.of_nat N.to_nat.
+  eff_ref prologue select_manifest N.of_nat N.to_nat.
